@@ -210,3 +210,68 @@ Fixpoint gval_eqb (x y : gval) : bool :=
       (fix go (l m : list gval) : bool := match l, m with [], [] => true | a :: r, c :: s => gval_eqb a c && go r s | _, _ => false end) l m
   | _, _ => false
   end.
+
+(** * what the schema does not name is ignored *)
+(** an attribute no attribute field of the struct matches leaves the value as it is ... *)
+Definition attr_unmatched (is : list (option finfo)) (a : bytes * bytes * bytes) : bool :=
+  let '(asp, alc, _) := a in
+  forallb (fun o => negb (mode_is MAttr o && match o with Some fi => name_matches fi asp alc | None => false end)) is.
+Lemma set_attr_unmatched sch is fs acc a : attr_unmatched is a = true -> set_attr sch is fs acc a = acc.
+Proof.
+  destruct a as [[asp alc] av]. unfold attr_unmatched, set_attr. intro H.
+  match goal with |- ?f is fs 0 acc = acc =>
+    assert (G : forall is0 fs0 i0 acc0,
+              forallb (fun o => negb (mode_is MAttr o && match o with Some fi => name_matches fi asp alc | None => false end)) is0 = true ->
+              f is0 fs0 i0 acc0 = acc0) end.
+  { induction is0 as [|o ir IH]; intros fs0 i0 acc0 H0; [reflexivity|].
+    cbn [forallb] in H0. apply andb_prop in H0 as [H1 H2]. apply negb_true_iff in H1.
+    destruct fs0 as [|f fr]; [reflexivity|]. destruct acc0 as [vs1|]; [|reflexivity].
+    rewrite H1. apply IH. exact H2. }
+  apply G. exact H.
+Qed.
+(** ... and so does a child element that matches no element field when the struct has no ",any" field *)
+Definition elem_unmatched (is : list (option finfo)) (space local : bytes) : bool :=
+  forallb (fun o => negb (elem_field_for space local o)) is && forallb (fun o => negb (mode_is MAny o)) is.
+Lemma find_idx_none {A} (p : A -> bool) l : forallb (fun x => negb (p x)) l = true -> forall i, find_idx p l i = None.
+Proof.
+  induction l as [|x r IH]; intros H i; [reflexivity|]. cbn [forallb] in H. apply andb_prop in H as [H1 H2].
+  apply negb_true_iff in H1. cbn [find_idx]. rewrite H1. apply IH. exact H2.
+Qed.
+Lemma set_child_unmatched rec is fs acc sp lc at2 kd2 :
+  elem_unmatched is sp lc = true -> set_child rec is fs acc (RElem sp lc at2 kd2) = acc.
+Proof.
+  unfold elem_unmatched, set_child. intro H. apply andb_prop in H as [H1 H2].
+  destruct acc as [vs2|]; [|reflexivity].
+  rewrite (find_idx_none _ _ H1 0), (find_idx_none _ _ H2 0). reflexivity.
+Qed.
+
+(** hence: appending unknown attributes and unknown child elements (for a struct without chardata and ",any" fields) to an
+    element does not change what it is unmarshalled to *)
+Theorem um_struct_ignores_unknown sch rec fs vs space local attrs kids extra_attrs extra_kids is :
+  infos sch fs = Some is ->
+  existsb (mode_is MInner) is = false -> find_idx (mode_is MCharData) is 0 = None ->
+  forallb (attr_unmatched is) extra_attrs = true ->
+  forallb (fun n => match n with RElem sp lc _ _ => elem_unmatched is sp lc | RText _ => true end) extra_kids = true ->
+  um_struct sch rec fs vs space local (attrs ++ extra_attrs) (kids ++ extra_kids) = um_struct sch rec fs vs space local attrs kids.
+Proof.
+  intros Hi Hin Hcd Ha Hk. unfold um_struct. rewrite Hi, Hin. cbn [andb].
+  destruct (negb (xmlname_ok fs space local)); [reflexivity|].
+  assert (A : forall acc, fold_left (set_attr sch is fs) extra_attrs acc = acc).
+  { induction extra_attrs as [|a r IH]; intro acc; [reflexivity|]. cbn [forallb] in Ha. apply andb_prop in Ha as [H1 H2].
+    cbn [fold_left]. rewrite (set_attr_unmatched sch is fs acc a H1). apply IH. exact H2. }
+  assert (K : forall acc, fold_left (set_child rec is fs) extra_kids acc = acc).
+  { induction extra_kids as [|n r IH]; intro acc; [reflexivity|]. cbn [forallb] in Hk. apply andb_prop in Hk as [H1 H2].
+    cbn [fold_left]. destruct n as [s|sp lc at2 kd2].
+    - replace (set_child rec is fs acc (RText s)) with acc by (destruct acc; reflexivity). apply IH. exact H2.
+    - rewrite (set_child_unmatched rec is fs acc sp lc at2 kd2 H1). apply IH. exact H2. }
+  rewrite fold_left_app, A.
+  destruct (fold_left (set_attr sch is fs) attrs _) as [vs1|]; [|reflexivity].
+  rewrite fold_left_app, K.
+  destruct (fold_left (set_child rec is fs) kids (Some vs1)) as [vs3|]; [|reflexivity].
+  rewrite Hcd. reflexivity.
+Qed.
+
+Lemma um_struct_step k sch n fs vs space local attrs kids :
+  base_type sch (TNamed n) = TNamed n -> lookup sch n = Some (SStruct fs) ->
+  um (S k) sch (TNamed n) (VStruct vs) space local attrs kids = um_struct sch (um k sch) fs vs space local attrs kids.
+Proof. intros Hb Hl. cbn [um]. now rewrite Hb, Hl. Qed.
